@@ -186,6 +186,31 @@ pub fn differential<'s, I: Kind<'s> + Clone>(
     if is_clean_accept(&c) != r_plain.accepted {
         bail!(&format!("{}/accept-check", id), "check {} but the PEG reading {}", c.has_output, r_plain.accepted);
     }
+    // the by-reference primitives (any_ref / select_ref!) in place of any / select!, where the kind has them
+    if I::BORROW && g.any_node(&|n| matches!(n, G::Any | G::Select(_))) {
+        let mut bb = Bld::<I, chumsky::error::Rich<'s, I::Tok, I::Spn>>::new(g, false);
+        bb.borrow_prims = true;
+        let pb = bb.build(g);
+        let ob = run_parse(&pb, mk());
+        let cb = run_check(&pb, mk());
+        l.evals += 2;
+        l.bump("by_reference_primitive_builds");
+        if ob.panic.is_some() || cb.panic.is_some() {
+            bail!(&format!("{}/panic", id), "any_ref / select_ref build panicked: {:?} {:?}", ob.panic, cb.panic);
+        }
+        if is_clean_accept(&ob) != r_plain.accepted || is_clean_accept(&cb) != r_plain.accepted {
+            bail!(&format!("{}/accept-ref-prims", id), "with any_ref / select_ref: parse/check accept = {}/{} but the PEG reading = {} (errors {:?})", is_clean_accept(&ob), is_clean_accept(&cb), r_plain.accepted, ob.errs);
+        }
+        if is_clean_accept(&ob) {
+            let rv = &r_plain.prefix.as_ref().unwrap().0;
+            if let Err(m) = cmp_val(rv, ob.out.as_ref().unwrap(), sm, base) {
+                bail!(&format!("{}/value-ref-prims", id), "output with any_ref / select_ref differs: {}", m);
+            }
+        }
+        if ob.errs != o.errs {
+            bail!(&format!("{}/errors-ref-prims", id), "errors with any_ref / select_ref {:?} differ from those with any / select {:?}", ob.errs, o.errs);
+        }
+    }
     // zero-sized error type: separate fast paths in the failure bookkeeping
     let pe = build::<I, EmptyErr>(g, false);
     let oe = run_parse(&pe, mk());
